@@ -34,7 +34,8 @@ def cases(draw, tier="quick"):
 def ascriptions(spec, cfg):
     m = M.RefEnum(spec)
     r = spec["repr"]
-    v = "E::%s" % m.idents[0]
+    EN = spec.get("ident", "E")
+    v = "%s::%s" % (EN, m.idents[0])
     en = lambda f: E.enabled(cfg, f)
     nm = lambda f: E.item_name(cfg, f)
     O = "::core::option::Option"
@@ -83,6 +84,9 @@ def ascriptions(spec, cfg):
         L.append("assert_debug::<E>();")
     if en("Display"):
         L.append("assert_display::<E>();")
+    if EN != "E":
+        import re as _re
+        L = [_re.sub(r"(?<![A-Za-z0-9_:])E(?![A-Za-z0-9_])", EN, l) for l in L]
     return L
 
 
@@ -136,7 +140,6 @@ def run_case(case):
         return run_small_scope(case)
     out = J.Outcome()
     spec, cfg = dict(case["spec"]), case["cfg"]
-    spec["ident"] = "E"
     m = M.RefEnum(spec)
     lines = ascriptions(spec, cfg)
     src = (E.HEADER + "pub mod m {\n    use ::enum_tools::EnumTools;\n" + E.enum_item_text(spec, cfg) + HELPERS +
